@@ -1,7 +1,7 @@
 (* Correspondence definitions for C03: the builder model on the call sequences the implementation ran. *)
 From Coq Require Import List NArith ZArith Bool.
 Import ListNotations.
-From GMS Require Import Base.CorrLib Range.Cut Range.MRange Range.C03IndexBuilder Range.C03Multi.
+From GMS Require Import Base.CorrLib Range.Cut Range.MRange Range.C03IndexBuilder Range.C03Multi Range.C03Scan.
 
 Definition cut_eqb (a b : cut) : bool :=
   match a, b with
@@ -12,15 +12,78 @@ Definition cut_eqb (a b : cut) : bool :=
 Definition rce_eqb (a b : rce) : bool := cut_eqb (lo a) (lo b) && cut_eqb (hi a) (hi b).
 
 Definition range_eqb : range -> range -> bool := list_eqb rce_eqb.
+
+(* shape of an index filter tree: leaf (id, column, IndexScanOp number) *)
+Inductive skel : Type :=
+| KLeaf (id col opc : nat)
+| KAnd (id : nat) (leaves ors : list skel)
+| KOr (id : nat) (cs : list skel).
+Definition op_code (o : op) : nat :=
+  match o with OEq _ => 0 | ONe _ => 4 | OGt _ => 5 | OGe _ => 6 | OLt _ => 7 | OLe _ => 8 | OIsNull => 11 | OIsNotNull => 12 end.
+Definition bop_code (b : bop) : nat := match b with BOp _ o => op_code o | BIn _ _ => 2 | BNotIn _ _ => 3 end.
+Fixpoint skel_of (f : ftree) : skel :=
+  match f with
+  | FLeaf id b => KLeaf id (bop_col b) (bop_code b)
+  | FAnd id ls ors => KAnd id (map (fun l => KLeaf (fst l) (bop_col (snd l)) (bop_code (snd l))) ls) (map skel_of ors)
+  | FOr id cs => KOr id (map skel_of cs)
+  end.
+Fixpoint skel_eqb (a b : skel) : bool :=
+  let fix all (xs ys : list skel) : bool :=
+    match xs, ys with
+    | [], [] => true
+    | x :: xs', y :: ys' => skel_eqb x y && all xs' ys'
+    | _, _ => false
+    end in
+  match a, b with
+  | KLeaf i c o, KLeaf i' c' o' => Nat.eqb i i' && Nat.eqb c c' && Nat.eqb o o'
+  | KAnd i ls os, KAnd i' ls' os' => Nat.eqb i i' && all ls ls' && all os os'
+  | KOr i cs, KOr i' cs' => Nat.eqb i i' && all cs cs'
+  | _, _ => false
+  end.
+Definition nats_eqb : list nat -> list nat -> bool := list_eqb Nat.eqb.
+(* id sets are FastIntSets in the code: compare as sorted duplicate-free lists *)
+Fixpoint ninsert (x : nat) (l : list nat) : list nat :=
+  match l with
+  | [] => [x]
+  | y :: l' => if Nat.ltb x y then x :: l else if Nat.eqb x y then l else y :: ninsert x l'
+  end.
+Definition nset (l : list nat) : list nat := fold_right ninsert [] l.
+
 Inductive case : Type :=
 (* number of index columns, calls applied to the builder, ranges observed from Ranges() *)
 | CB (k : nat) (ops : list bop) (obs : list range)
 (* keys of a lone IN filter on the INT column, result of the fast path: None = nil *)
-| CIn (ls : list lit) (obs : option (list range)).
+| CIn (ls : list lit) (obs : option (list range))
+(* analyzer level: index columns, the filter conjuncts, what buildRoot produced (tree shape, invalid ids, whole
+   expression left over, imprecise ids), the include set given to the range builder, what it produced (error?,
+   leftover ids, ranges) and key tuples on which the observed ranges are compared with the model's *)
+| CScan (k : nat) (filters : list sexpr)
+        (otree : option skel) (oinvalid : list nat) (owhole : bool) (oimprecise : list nat)
+        (include : list nat) (oerr : bool) (oleftover : list nat) (oranges : list range) (pts : list tuple).
+
 Definition ok (c : case) : bool :=
   match c with
   | CB k ops obs => list_eqb range_eqb (mresult (mrun k ops)) obs
   | CIn ls obs => option_eqb (list_eqb range_eqb) (in_fast ls) obs
+  | CScan k filters otree oinv owhole oimp include oerr oleft oranges pts =>
+    match join_and filters with
+    | None => false
+    | Some e =>
+      let r := build_root e in
+      option_eqb skel_eqb (option_map skel_of (r_tree r)) otree &&
+      nats_eqb (nset (r_invalid r)) oinv && Bool.eqb (r_whole_leftover r) owhole && nats_eqb (nset (r_imprecise r)) oimp &&
+      match r_tree r with
+      | None => true
+      | Some root =>
+        match build_range_collection k include (r_imprecise r) (fun rs => Some rs) root with
+        | None => oerr
+        | Some (res, lo) =>
+          negb oerr && nats_eqb lo oleft &&
+          let mine := match res with Some rs => rs | None => [] end in
+          forallb (fun t => Bool.eqb (ucontains mine t) (ucontains oranges t)) pts
+        end
+      end
+    end
   end.
 Definition mismatches (cs : list (N * case)) : list N :=
   map fst (filter (fun p => negb (ok (snd p))) cs).
